@@ -1,9 +1,10 @@
-\* core: T <= 3, weights 1..3, values {-1,0,2}; layouts: <= 3 leading dims of size 1..2, T in {1,2,3};
+\* core: T <= 3, weights 1..3, values {-1,0,2}, long-sequence lemmas (EmbedInvariant, ReplicaInvariant) on up to 4 positions; layouts: <= 3 leading dims of size 1..2, T in {1,2,3};
 \* table: ItemsThorough (AttentionMC)
 INIT Init
 NEXT Next
 CONSTANTS
   CoreT = 3
+  EmbedT = 4
   CoreW = {1, 2, 3}
   CoreV <- CoreVals
   MaxRank = 3
@@ -18,6 +19,8 @@ INVARIANT Convex
 INVARIANT MaskBlind
 INVARIANT PermutationInvariant
 INVARIANT ScaleInvariant
+INVARIANT EmbedInvariant
+INVARIANT ReplicaInvariant
 INVARIANT LayoutIsLegal
 INVARIANT LayoutOutShape
 INVARIANT LegalIsLayout
